@@ -10,14 +10,14 @@ RULE = ('runs = the ECON program population of C01 biased towards markets with s
         'explicit demands and asset weightings. Oracle per market and period k>=1, with participants taken from what '
         'the program declares (reference model econref.py, never from the library\'s own search): total demand = sum '
         'of declared demanders, supply = demand, sum of supplier allocations = supply, each supplier\'s own variable = '
-        'the market\'s assignment (x cross rate), asset demands add up to F, default money demand = F, issuer supply = '
+        'the market\'s assignment (x cross rate), the cash flow booked on every participant (sector ledger), asset demands add up to F, default money demand = F, issuer supply = '
         'total asset demand. Candidates re-run at 1e-13. distinct = distinct program structure signatures among solved runs')
 COMPONENTS = {'real': ['sfc_models.sector.Market (_GenerateTermsLowLevel, _GenerateMultiSupply, _SearchSupplier)',
                        'sector_definitions.MoneyMarket/DepositMarket', 'Sector.GenerateAssetWeighting', 'solver'],
               'stub': []}
 ASSUMPTIONS = ['who demands / supplies is derived from the op list by the reference model in simfw/econref.py']
 
-WHICH = ('clearing',)
+WHICH = ('clearing', 'ledger')
 FAMS = ['closed', 'closed_fin', 'closed_fin', 'pc', 'capitalists', 'federated', 'federated', 'multi_currency_supply',
         'multi_currency_supply', 'multi_currency', 'gold']
 list_paths = econprops.list_paths
@@ -31,8 +31,22 @@ def generate(seed, tier):
     return {'kind': 'ECON', 'family': info['family'], 'ops': ops}
 
 
+def remap(x):
+    """The cash flow booked for a market participant must equal the amount the market assigns: a ledger mismatch on a
+    sector that demands from / supplies to a market is C04's subject too."""
+    if x.prop == 'C01' and x.kind == 'sector-ledger-mismatch':
+        labels = [f[1] for f in x.details.get('flows', [])]
+        if any(l.startswith('demand:') or l.startswith('supply:') for l in labels):
+            x.prop = ID
+            x.kind = 'booked-flow-differs-from-market-assignment'
+            x.signature = 'booked-flow-differs-from-market-assignment'
+            return x
+        return None
+    return x
+
+
 def execute(case):
-    viol, stats, sess = econprops.numeric_check(case, WHICH, ID)
+    viol, stats, sess = econprops.numeric_check(case, WHICH, ID, remap=remap)
     solved = stats.get('main_outcome', {}).get('main:ok', 0) > 0
     return {'violations': viol, 'stats': stats, 'sig': econprops.program_sig(case, sess),
             'digest': core.digest([[(i, n, o) for i, n, o in sess.log],
